@@ -668,8 +668,47 @@ func c18ProbeUserNameChange(c *ctx) {
 	}
 }
 
+// c18ProbeSecondContainer: every container the factory creates is complete and correctly bound by itself - also after an earlier one
+// was edited by its owner (an entry removed, another replaced)
+func c18ProbeSecondContainer(c *ctx) {
+	w, err := c18Build(c18GasMap(10), map[string]struct{}{}, false, 0, false)
+	if err != nil {
+		c18Fail(c, "monitor", "factory-error", err.Error(), nil)
+		return
+	}
+	c.note("probe/second-container", true)
+	stub, _ := w.container.Get("ESDTBurn")
+	w.container.Remove("ESDTWipe")
+	_ = w.container.Replace("ESDTTransfer", stub)
+	_ = w.container.Add("NotAProtocolFunction", stub)
+	c2, err := w.factory.CreateBuiltInFunctionContainer()
+	if err != nil {
+		c18Fail(c, "monitor", "registry-behaviour/second-container", "a second CreateBuiltInFunctionContainer failed: "+err.Error(), nil)
+		return
+	}
+	var ks []string
+	for k := range c2.Keys() {
+		ks = append(ks, k)
+	}
+	sort.Strings(ks)
+	if strings.Join(ks, ",") != strings.Join(c18Names(), ",") {
+		c18Fail(c, "monitor", "registry-behaviour/second-container", fmt.Sprintf("the second container of one factory holds %v, expected exactly the 23 protocol names (the first one was edited by its owner)", ks), map[string]interface{}{"keys": ks})
+		return
+	}
+	for _, n := range ks {
+		f, err := c2.Get(n)
+		if err != nil {
+			continue
+		}
+		if r := c18Reflect(f); r.typ != c18Expected[n].typ {
+			c18Fail(c, "monitor", "registry-behaviour/second-container", fmt.Sprintf("in the second container %s is bound to a %s, expected a %s", n, r.typ, c18Expected[n].typ), map[string]string{"name": n})
+		}
+	}
+}
+
 func c18Probes(c *ctx) {
 	c18ProbeDNS(c)
+	c18ProbeSecondContainer(c)
 	c18ProbeUserNameChange(c)
 	w, err := c18Build(c18GasMap(10), map[string]struct{}{}, false, 0, false)
 	if err != nil {
@@ -802,10 +841,36 @@ func c18RunSequence(c *ctx, act uint32, seq []uint32, class string, rot int) {
 			}
 		}
 	}
+	// a gas schedule change between two notifications must not change what is active: the object registered under the name is asked
+	// again (it may be the same object with new prices, or - if the factory rebuilt it - a new one, which must know the confirmed epoch)
+	reschedule := func(step int, last uint32) {
+		if rot%2 == 0 {
+			return
+		}
+		w.factory.GasScheduleChange(c18GasMap(uint64(20 + 3*step)))
+		for _, n := range names {
+			f, err := w.container.Get(n)
+			if err != nil {
+				c18Fail(c, "monitor", "registry-get", "Get("+n+") failed after a gas schedule change: "+err.Error(), map[string]string{"name": n})
+				continue
+			}
+			want := true
+			if c18Expected[n].enabled {
+				want = step >= 0 && last >= act
+			}
+			if got := f.IsActive(); got != want {
+				c18Fail(c, "monitor", "activation-after-gas-schedule-change-"+n, fmt.Sprintf("%s.IsActive() = %v after %d notification(s) of %v with activation epoch %d AND a gas schedule change, expected %v (unchanged)", n, got, step+1, seq, act, want), replay)
+			}
+			fns[n] = f
+		}
+		c.count("epochs/with-gas-schedule-change")
+	}
 	observe(-1, 0)
+	reschedule(-1, 0)
 	for i, e := range seq {
 		w.notifier.confirm(e, c.rng.Uint64())
 		observe(i, e)
+		reschedule(i, e)
 	}
 	c.note(fmt.Sprintf("epochs/%d/%v", act, seq), true)
 	c.count(class)
